@@ -94,6 +94,10 @@ func (c *BindingManager) RemoveBinding(data model.BindingManagementDeleteCallTyp
 	// b. The absence of "bindingDelete. serverAddress. device" SHALL be treated as if it was
 	//    present and set to the recipient's "device" address part.
 
+	if data.ClientAddress == nil {
+		return errors.New("clientAddress is missing but required")
+	}
+
 	var clientAddress model.FeatureAddressType
 	util.DeepCopy(data.ClientAddress, &clientAddress)
 	if data.ClientAddress.Device == nil {
